@@ -145,3 +145,35 @@ package revision
 //@ props C15
 //@ site (xpkg.PackageCache).Store(_, $k, _)
 //@   assert [C15:cache-written-under-revision-name] $k == pr.GetName()
+
+// C17: a revision's dependencies are reported satisfied (err == nil for an active revision) only
+// if no node of its transitive closure is one the graph had to imply (i.e. is absent from the
+// lock), and every direct dependency's installed version equals the pinned digest or satisfies
+// the declared constraint. d.Init / d.TraceNode / d.GetNode are the DAG interface (assumed
+// contract, checked against both map implementations by the bounded stand-in).
+//
+//@ macro DEPOK(dep, n) = typeis(n, *v1beta1.LockPackage) && as(n, *v1beta1.LockPackage) != nil
+//@      && ((call("github.com/google/go-containerregistry/pkg/v1.NewHash", dep.Constraints)[1] == nil
+//@            && as(n, *v1beta1.LockPackage).Version == call("(v1.Hash).String", call("github.com/google/go-containerregistry/pkg/v1.NewHash", dep.Constraints)[0]))
+//@        || (call("github.com/google/go-containerregistry/pkg/v1.NewHash", dep.Constraints)[1] != nil
+//@            && call("github.com/Masterminds/semver.NewConstraint", dep.Constraints)[1] == nil
+//@            && call("github.com/Masterminds/semver.NewVersion", as(n, *v1beta1.LockPackage).Version)[1] == nil
+//@            && call("github.com/Masterminds/semver.NewConstraint", dep.Constraints)[0].Check(call("github.com/Masterminds/semver.NewVersion", as(n, *v1beta1.LockPackage).Version)[0])))
+
+//@ func (*revision.PackageDependencyManager).Resolve
+//@ props C17
+//@ requires m != nil && m.client != nil && meta != nil && pr != nil
+//@ let $implied = result (dag.DAG).Init
+//@ let $dag = result field:revision.PackageDependencyManager.newDag
+//@ let $tree = result (dag.DAG).TraceNode
+//@ ensures [C17:inactive-revision-resolves-nothing] old(pr.GetDesiredState()) == "Inactive" ==> err == nil && found == 0 && installed == 0 && invalid == 0
+//@ ensures [C17:satisfied-only-if-nothing-in-the-closure-is-missing] err == nil && old(pr.GetDesiredState()) != "Inactive" ==>
+//@      forall i :: 0 <= i && i < len($implied) ==> !($implied[i].Identifier() in $tree)
+//@ ensures [C17:satisfied-only-if-every-direct-dependency-version-fits] err == nil && old(pr.GetDesiredState()) != "Inactive" ==>
+//@      forall j :: 0 <= j && j < len(self.Dependencies) ==> DEPOK(self.Dependencies[j], $dag.GetNode(self.Dependencies[j].Package)[0])
+//@ ensures [C17:counts-agree-when-satisfied] err == nil ==> invalid == 0 && installed == found
+//@ loop range implied
+//@   invariant [C17:missing-recorded] len(missing) == 0 ==> forall i :: 0 <= i && i < done ==> !($implied[i].Identifier() in tree)
+//@   invariant [C17:installed-counts-down] installed + len(missing) == found
+//@ loop range self.Dependencies #1
+//@   invariant [C17:checked-so-far] len(invalidDeps) == 0 ==> forall j :: 0 <= j && j < done ==> DEPOK(self.Dependencies[j], $dag.GetNode(self.Dependencies[j].Package)[0])
